@@ -922,6 +922,12 @@ def check_c20(tier, seed, replay):
     t0 = time.time()
     violations = []
     notes = []
+    tie = dict(modules=[], obligations=0, discharged=0, theorems=[], broken=[], index=[])
+    if not replay:
+        tie = vlib.tie_check(prop)
+        for mod, what in tie['broken']:
+            path = vlib.write_replay(prop, tier, seed, 'tie-%s' % mod, ['verdict tie-broken', 'broken ' + what.split('\n')[0]], what.split('\n'))
+            violations.append((path, True))
     try:
         tmodel = vlib.build_lean(prop)
     except vlib.BuildError as e:
@@ -993,11 +999,18 @@ def check_c20(tier, seed, replay):
                     'model: ' + (mo[idx][0][d] if d < len(mo[idx][0]) else '<none>')]
         violations.append((vlib.write_replay(prop, tier, seed, 'c%d' % idx, hdr, ls), False))
     wall = time.time() - t0
+    if any(not nf for _, nf in violations):
+        for pth, nf in violations:
+            if nf:
+                notes.append('tie broken (%s) — a failing input was found, see the other replays' % os.path.basename(pth))
+        violations = [(pth, nf) for pth, nf in violations if not nf]
     cov = dict(
-        obligations=audit['obligations'], discharged=audit['discharged'],
-        checker_cmd='cd lean && lake build tmodel TrompModel.Props.C20 && lake env lean .lake/audit_C20.lean',
-        trusted_base=TRUSTED_BASE + ['the promise types of the coroutine harness (lazy/eager pullers) and g++ 12.2 coroutines'],
-        theorems=[dict(name=n, axioms=a) for n, a in audit['theorems']],
+        obligations=audit['obligations'] + tie['obligations'], discharged=audit['discharged'] + tie['discharged'],
+        checker_cmd='python3 tools/cxx2lean.py && cd lean && lake build tmodel TrompModel.Props.C20 TrompModel.Tie.Coro && lake env lean .lake/audit_C20.lean',
+        trusted_base=TRUSTED_BASE + ['the promise types of the coroutine harness (lazy/eager pullers) and g++ 12.2 coroutines'] +
+                     (['translator tools/cxx2lean.py + vocabulary tools/cxxvocab.py, for: ' + '; '.join(tie['index'])] if tie['modules'] else []),
+        theorems=[dict(name=n, axioms=a) for n, a in audit['theorems'] + tie['theorems']],
+        translated_functions=tie['index'],
         programs=len(scripts), traces_validated_against_impl=len(scripts) - len(failing), disagreements_checked=len(failing),
         evaluations=nops, distinct_nontrivial=len(set(tuple(s) for s in scripts)),
         rule='exhaustive: lazy/eager x value/void completion x every CO_YIELD list of length <= 3 (quick) / 4 over {value, value, throwing} '
